@@ -313,4 +313,53 @@ theorem decodeNumeric_long (neg : Bool) (w : Int) (ds : Nat) (digits : List Nat)
     rw [computeNumeric_view (d :: rest) w neg hd (by simp)]
     simp [Spec.Numeric.view]
 
+/-! ### the varlena wrapper inside JSONB -/
+
+theorem decodeJNumeric_varlena4 (p : Bytes) (h1 : 0 < p.length) (h2 : p.length + 4 < 2 ^ 30) :
+    decodeJNumeric (Spec.varlena4 p) = decodeNumeric p := by
+  unfold decodeJNumeric Spec.varlena4
+  have hl : ¬ (le 4 ((p.length + 4) * 4) ++ p).length < 4 := by simp [le_length]
+  have hu : uN 4 (le 4 ((p.length + 4) * 4) ++ p) 0 = .ok ((p.length + 4) * 4) := by
+    rw [uN_ok 4 _ 0 (by simp [le_length])]
+    simp only [List.drop_zero]
+    rw [rd_le 4 _ p (by omega)]
+  simp only [hl, if_false, hu, ok_bind, land_3, Nat.shiftRight_eq_div_pow]
+  have e0 : ((p.length + 4) * 4 % 4 == 0) = true := by simp
+  have e1 : (p.length + 4) * 4 / 2 ^ 2 = p.length + 4 := by omega
+  simp only [e0, if_true, e1]
+  have hg : p.length + 4 > 4 ∧ (le 4 ((p.length + 4) * 4) ++ p).length ≥ p.length + 4 := by
+    simp [le_length]; omega
+  rw [if_pos hg, slice_ok _ 4 (p.length + 4) (by simp [le_length]; omega) (by omega)]
+  simp only [ok_bind]
+  congr 1
+  rw [List.take_of_length_le (by simp [le_length]; omega), List.drop_left' (by simp [le_length])]
+
+theorem decodeJNumeric_varlena1 (p : Bytes) (h1 : 3 ≤ p.length) (h2 : p.length + 1 ≤ 127) :
+    decodeJNumeric (Spec.varlena1 p) = decodeNumeric p := by
+  unfold decodeJNumeric Spec.varlena1
+  have hl : ¬ (UInt8.ofNat ((p.length + 1) * 2 + 1) :: p).length < 4 := by simp; omega
+  have hb : (UInt8.ofNat ((p.length + 1) * 2 + 1)).toNat = (p.length + 1) * 2 + 1 := by
+    simp [UInt8.toNat_ofNat']; omega
+  obtain ⟨a, b, c, rest, hp⟩ : ∃ a b c rest, p = a :: b :: c :: rest := by
+    match p, h1 with
+    | a :: b :: c :: rest, _ => exact ⟨a, b, c, rest, rfl⟩
+  have hu : ∃ hi, uN 4 (UInt8.ofNat ((p.length + 1) * 2 + 1) :: p) 0 = .ok (((p.length + 1) * 2 + 1) + 256 * hi) := by
+    rw [uN_ok 4 _ 0 (by simp; omega)]
+    simp only [List.drop_zero]
+    subst hp
+    refine ⟨a.toNat + 256 * (b.toNat + 256 * (c.toNat + 256 * 0)), ?_⟩
+    simp only [rd, hb]
+  obtain ⟨hi, hu⟩ := hu
+  simp only [hl, if_false, hu, ok_bind, land_3, land_FF, Nat.shiftRight_eq_div_pow]
+  have e0 : (((p.length + 1) * 2 + 1 + 256 * hi) % 4 == 0) = false := by simp; omega
+  have e1 : ((p.length + 1) * 2 + 1 + 256 * hi) % 256 / 2 ^ 1 = p.length + 1 := by omega
+  simp only [e0, Bool.false_eq_true, if_false, e1]
+  have hg : p.length + 1 > 1 ∧ (UInt8.ofNat ((p.length + 1) * 2 + 1) :: p).length ≥ p.length + 1 := by
+    simp; omega
+  rw [if_pos hg, slice_ok _ 1 (p.length + 1) (by simp) (by omega)]
+  simp only [ok_bind]
+  congr 1
+  rw [List.take_of_length_le (by simp)]
+  rfl
+
 end PgVerif.Proofs
